@@ -31,6 +31,10 @@ def base_diagram():
             {'kl': 'X', 'name': 'Xeno', 'comp': 'C2', 'attrs': [A('Id', 'base', 'unique_id'), A('V', 'base', 'Other_Real'),
                                                                A('P_Id', 'ref')], 'ids': [['Id']]},
             {'kl': 'G', 'name': 'Glob', 'comp': 'C1', 'attrs': [A('Id', 'base', 'unique_id'), A('T_Id', 'ref')], 'ids': [['Id']]},
+            # a class none of whose attributes is emitted (derived / unsupported type only) and a class without attributes
+            {'kl': 'Z', 'name': 'Zed', 'comp': 'C1', 'attrs': [A('D', 'derived', 'integer'), A('H', 'base', 'inst_ref<Object>')],
+             'ids': []},
+            {'kl': 'E', 'name': 'Empty', 'comp': 'C2', 'attrs': [], 'ids': []},
             # a two-attribute key whose referential names sort differently from the identifying names they refer to
             {'kl': 'W', 'name': 'Owner', 'comp': 'C1', 'attrs': [A('Name', 'base', 'string'), A('Kind', 'base', 'integer')],
              'ids': [['Name', 'Kind']]},
